@@ -41,6 +41,9 @@ theorem powmE1_spec (bneg : Bool) (bp mp : List Nat) (hb : Norm bp) (hbne : bp â
 
 -- non-vacuity: the witness of the fixed defect, m = 2^128 (3 limbs), b = -(2^128 - 1) (2 limbs): size 1, value 1
 example : powmE1 true [B - 1, B - 1] [0, 0, 1] = ([1, 0, 0], 1) := by decide +kernel
+-- the code before a1bb758 (`rn = n; rn -= (rp[rn - 1] == 0);`) on the same witness: size 2 over a zero top limb
+example : (Res.mk (sub [0, 0, 1] [B - 1, B - 1]).1
+    (3 - (if (sub [0, 0, 1] [B - 1, B - 1]).1.getD 2 0 = 0 then 1 else 0))).wf = false := by decide +kernel
 
 /-- Result well-formedness of mpz_powm on **every** path (m = 0, e = 0, negative e, b = 0, the early
     b^1 path, odd and even moduli, negative-base fix-up): `SIZ(r) = 0` or the top limb `PTR(r)[SIZ(r)-1]`
